@@ -18,7 +18,9 @@ type LossFrame struct {
 	MTU     uint16    `json:"mtu"`
 	NALs    []NALSpec `json:"nals,omitempty"`
 	OBUs    []OBUSpec `json:"obus,omitempty"`
-	RefEnc  bool      `json:"ref_enc"`            // h264: packetise with the independent encoder
+	RefEnc  bool      `json:"ref_enc"`            // packetise with the independent encoder (h264rtp / av1rtp.Pack)
+	AV1W    []int     `json:"av1_w,omitempty"`    // av1 + RefEnc: per packet (cyclically) 0 = W=0, every element length-prefixed; else W = element count
+	AV1N    bool      `json:"av1_n,omitempty"`    // av1 + RefEnc: N bit on the first packet
 	FUSize  int       `json:"fu_size,omitempty"`  // fragment size used by the independent encoder
 	EmptyFU int       `json:"empty_fu,omitempty"` // independent encoder: 1 = empty START fragment, 2 = an empty middle fragment, 3 = both (RFC 6184 5.8 allows empty FUs); +4 = a unit that fits the MTU goes out as ONE FU-A carrying S and E together (a sender must not do that, but the packet begins with its own start marker and a fresh H264Packet decodes it)
 }
@@ -46,6 +48,15 @@ var subC15 = register("C15", "loss", checkC15)
 
 func (f *LossFrame) packets(codec string) [][]byte {
 	if codec == "av1" {
+		if f.RefEnc {
+			var obus [][]byte
+			for i := range f.OBUs {
+				o := &f.OBUs[i]
+				obus = append(obus, append(o.hdr(false).Bytes(), expand(o.Seed, 0, o.Size)...))
+			}
+
+			return av1rtp.Pack(obus, f.FUSize, f.AV1W, f.AV1N)
+		}
 		c := AV1Case{MTU: f.MTU, OBUs: f.OBUs}
 
 		return (&codecs.AV1Payloader{}).Payload(f.MTU, c.input())
@@ -268,6 +279,20 @@ func genLossFrame(t *rapid.T, codec string, mustFragment bool, label string) Los
 			}
 			f.OBUs = append(f.OBUs, o)
 		}
+		if genBool(t, label+"av1refenc") {
+			// the independent encoder: other packet shapes than the library's payloader produces (W=0 with
+			// every element length-prefixed, up to three elements per packet, fragments cut anywhere)
+			f.RefEnc, f.AV1N = true, genBool(t, label+"av1n")
+			total := 0
+			for i := range f.OBUs {
+				total += 2 + f.OBUs[i].Size
+			}
+			lo := maxi(1, total/24) // at most about two dozen packets per frame
+			f.FUSize = rapid.IntRange(lo, maxi(lo, mtu-1)).Draw(t, label+"av1room")
+			for i, k := 0, rapid.IntRange(1, 4).Draw(t, label+"av1nw"); i < k; i++ {
+				f.AV1W = append(f.AV1W, rapid.IntRange(0, 1).Draw(t, label+"av1w"))
+			}
+		}
 
 		return f
 	}
@@ -348,7 +373,7 @@ func genLossCase(t *rapid.T) *LossCase {
 	return c
 }
 
-const ruleC15 = "rapid draws (codec in {H264Packet Annex-B, H264Packet AVC, AV1Depacketizer}, frame A with at least one fragmented unit packetised by the library's payloader or (H264) the independent encoder (which also emits empty fragments and, for units that fit, single FU-As carrying S and E together), optionally a second lossy frame delivered under a drawn mask, frame B of any shape (sometimes starting with an SPS/PPS pair), 0-5 garbage inputs - random strings, stray continuation fragments or damaged copies of A's own packets - interleaved at drawn positions before, inside and after A and always delivered); for A of up to 10 packets ALL 2^n delivery subsets are enumerated in order (1024 drawn subsets beyond that), each followed by the complete frame B; oracle: for every packet of B the output bytes, error-ness and AV1 Z/Y/N of the used receiver equal those of a fresh receiver fed B only. Non-trivial = case in which some subset leaves a fragment train open (start delivered, end lost) and B contains a fragmented unit; evaluations count cases plus enumerated subsets; distinct = FNV-64 of the JSON case"
+const ruleC15 = "rapid draws (codec in {H264Packet Annex-B, H264Packet AVC, AV1Depacketizer}, frame A with at least one fragmented unit packetised by the library's payloader or an independent encoder (AV1: W=0 and counted forms, up to three elements per packet, fragments cut anywhere; H264: also empty fragments and, for units that fit, single FU-As carrying S and E together), optionally a second lossy frame delivered under a drawn mask, frame B of any shape (sometimes starting with an SPS/PPS pair), 0-5 garbage inputs - random strings, stray continuation fragments or damaged copies of A's own packets - interleaved at drawn positions before, inside and after A and always delivered); for A of up to 10 packets ALL 2^n delivery subsets are enumerated in order (1024 drawn subsets beyond that), each followed by the complete frame B; oracle: for every packet of B the output bytes, error-ness and AV1 Z/Y/N of the used receiver equal those of a fresh receiver fed B only. Non-trivial = case in which some subset leaves a fragment train open (start delivered, end lost) and B contains a fragmented unit; evaluations count cases plus enumerated subsets; distinct = FNV-64 of the JSON case"
 
 func TestC15(t *testing.T) {
 	r := begin(t, "C15", "fault_enumeration", ruleC15)
